@@ -15,8 +15,8 @@
 //@enum file=poly-commit/src/error.rs name=Error
 //@enum file=poly-commit/src/data_structures.rs name=LCTerm
 //@struct file=poly-commit/src/data_structures.rs name=LinearCombination
-//@use pcenv
-//@spec batch_spec
+//@use pctypes pcenv
+//@spec group_spec batch_spec
 pub struct BatchLCProof { pub proof: BatchProof, pub evals: Option<Vec<Fr>> }
 impl LinearCombination { pub fn label(&self) -> (r: &String) ensures *r == self.label { &self.label } }
 // ---- trusted environment of this method ----
